@@ -47,6 +47,8 @@ structure St where
   devs : Array FlatDev := #[]
   -- observations
   res : String := ""
+  resLib : Bool := false       -- the raised exception is an instance of the library's UpnpError
+  linked : Bool := true        -- no broken back-pointer reported
   rows : Array (DevRow FV) := #[]
   bad : List String := []
 
@@ -154,6 +156,8 @@ def stepLine (st : St) (toks : List String) : St :=
             updLast l (fun a => { a with args := a.args ++ [g] })) }
       | _, _, _ => fail "bad arg"
   | ["res", r] => { st with res := r }
+  | ["res", r, l] => { st with res := r, resLib := l = "L1" }
+  | "olink" :: _ => { st with linked := false }
   | "odev" :: d :: u :: info =>
       match d.toNat?, parseStrArg u, info.mapM optStr with
       | some n, some u, some i => { st with rows := st.rows.push { depth := n, info := i, url := u, icons := [], services := [] } }
@@ -184,7 +188,7 @@ def stepLine (st : St) (toks : List String) : St :=
   | ["oarg", n, d, r, rt, b, lk, lkn] =>
       match parseStrArg n, parseStrArg d, parseStrArg r, parseStrArg rt, parseOptIdx lk, parseOptIdx lkn with
       | some n, some d, some r, some rt, some lk, some lkn =>
-          let st := if b = "1" then st else { st with bad := "argument not bound to the service's variable object" :: st.bad }
+          let st := if b = "1" then st else { st with linked := false }
           let g : ArgM := { name := n, direction := d, related := r, relatedType := rt }
           st.updLastOSvc fun s => { s with actions := updLast s.actions (fun a =>
             { a with args := a.args ++ [g], byNameDir := a.byNameDir ++ [lk], byName := a.byName ++ [lkn] }) }
@@ -212,13 +216,15 @@ def fmtFErr : FErr → String
   | .upnpError => "!UpnpError"
   | .keyError => "!RAW:KeyError"
   | .raw e => fmtErr e
+  | .library => "!LIBRARY"
   | .unmodelled => "!UNMODELLED"
 
-def parseFErr (t : String) : FErr :=
+def parseFErr (t : String) (isLib : Bool) : FErr :=
   if t = "!UpnpXmlContentError" then .xmlContent
   else if t = "!UpnpXmlParseError" then .xmlParse
   else if t = "!UpnpResponseError" then .response
   else if t = "!UpnpError" then .upnpError
+  else if isLib then .library
   else if t = "!RAW:KeyError" then .keyError
   else .raw (parseErr t)
 
@@ -289,15 +295,17 @@ def finish (st : St) : String × Bool × Bool × List String :=
         | .error e => if fmtFErr e = st.res then (true, []) else (false, [s!"corr: impl res={st.res} model={fmtFErr e}"])
       -- judge: the implementation's dump against the specification
       let implRes : Except FErr (List (DevRow FV)) :=
-        if st.res = "ok" then .ok st.rows.toList else .error (parseFErr st.res)
-      let obs : Observed FV := observedOf implRes
+        if st.res = "ok" then .ok st.rows.toList else .error (parseFErr st.res st.resLib)
+      let obs : Observed FV := match observedOf implRes with
+        | .created rows _ => .created rows st.linked
+        | o => o
       let jok := judge fo tb normRow st.nonStrict st.base d obs
       let jnote : List String :=
         if jok then [] else
           match mirror fo tb st.nonStrict st.base d with
           | .ok dm => [s!"judge: res={st.res} {firstDiff obsRows ((flatten 0 dm).map normRow)}"]
           | .error e => [s!"judge: expected {fmtFErr e} got {st.res}"]
-      let wf := d.wf fo tb st.base && urlsOk st.base d
+      let wf := judged fo tb st.nonStrict st.base d
       let bad := st.bad
       (if wf then "wf" else "nonwf", corr && bad.isEmpty, jok, bad ++ cnote ++ jnote)
   | _ => ("badforest", false, true, ["could not rebuild the device tree"])
